@@ -327,11 +327,14 @@ dround_ddur(struct dt_d_s d, struct dt_ddur_s dur, bool nextp)
 		switch (d.typ) {
 			unsigned int mdays;
 		case DT_YMD:
-			if ((forw && d.ymd.d < tgt) ||
-			    (!forw && d.ymd.d > tgt)) {
+			/* a target beyond this month's ultimo is the ultimo */
+			mdays = __get_mdays(d.ymd.y, d.ymd.m);
+			mdays = tgt <= mdays ? tgt : mdays;
+			if ((forw && d.ymd.d < mdays) ||
+			    (!forw && d.ymd.d > mdays)) {
 				/* no month or year adjustment */
 				;
-			} else if (d.ymd.d == tgt && !nextp) {
+			} else if (d.ymd.d == mdays && !nextp) {
 				/* we're ON the date already and no
 				 * next/prev date is requested */
 				;
